@@ -35,6 +35,11 @@ func driveC20Main(t *testing.T, out *vEmitter) {
 		{"dave@example.com\n", true, map[string]bool{"dave@example.com": true}},
 		{"alice@example.com\nbob@example.com\ncarol@example.com\ndave@example.com\n", true,
 			map[string]bool{"alice@example.com": true, "bob@example.com": true, "carol@example.com": true, "dave@example.com": true}},
+		// same size as version 0 (written within the same second, or with a preserved mtime, it is still a new file)
+		{"alice@example.com\nrob@example.com\n", true, map[string]bool{"alice@example.com": true, "rob@example.com": true}},
+		// no records at all: every address is revoked
+		{"", true, map[string]bool{}},
+		{"# alice@example.com\n", true, map[string]bool{}},
 	}
 	if err := os.WriteFile(path, []byte(versions[0].content), 0o600); err != nil {
 		t.Fatal(err)
@@ -43,7 +48,7 @@ func driveC20Main(t *testing.T, out *vEmitter) {
 	empty := map[string]bool{}
 	storeUserMap(um, &empty)
 	um.LoadAuthenticatedEmailsFile()
-	probes := []string{"alice@example.com", "bob@example.com", "carol@example.com", "dave@example.com", "mallory@example.com", "nobody@example.com"}
+	probes := []string{"alice@example.com", "bob@example.com", "carol@example.com", "dave@example.com", "mallory@example.com", "nobody@example.com", "rob@example.com"}
 	var started, published int64
 	seq := []int{0}
 	var mu, fileMu sync.Mutex
@@ -129,6 +134,26 @@ func driveC20Main(t *testing.T, out *vEmitter) {
 		if um.IsValid(e) != versions[final].set[e] {
 			out.Violation("reload/final-contents-not-visible", "after all reloads completed an allow-list validation does not reflect the final contents",
 				map[string]interface{}{"email": e, "final_version": final})
+		}
+	}
+	// every completed reload is visible, whatever the previous contents were (sequential, exact: all ordered pairs of
+	// good versions, written back to back)
+	for i := range versions {
+		for j := range versions {
+			if !versions[i].good || !versions[j].good || i == j {
+				continue
+			}
+			_ = os.WriteFile(path, []byte(versions[i].content), 0o600)
+			um.LoadAuthenticatedEmailsFile()
+			_ = os.WriteFile(path, []byte(versions[j].content), 0o600)
+			um.LoadAuthenticatedEmailsFile()
+			for _, e := range probes {
+				if um.IsValid(e) != versions[j].set[e] {
+					out.Violation("reload/final-contents-not-visible", "after all reloads completed an allow-list validation does not reflect the final contents",
+						map[string]interface{}{"email": e, "previous_version": i, "final_version": j})
+				}
+			}
+			out.Stat("usermap_sequential_pairs", 1)
 		}
 	}
 	// a reload that fails to parse leaves the previous contents in force (sequential, exact)
